@@ -87,6 +87,11 @@ CHECKS["C12"] = ("fault_enumeration",
     "Operations: cached_layer on nothing / keep / delete (nested tree) / invalid-metadata replace, uncached_layer over an existing layer, write_metadata, write_env over an old env with per-process scopes, write_sboms and write_exec_d_programs over old ones, handle_layer create / keep / update / recreate / migrate-replace with full results, and the real runtime as detect (pass+plan) and build (launch+store+SBOMs; with pre-existing longer outputs). Every position k of open (read/write/dir), read, write, mkdir, unlink, rmdir, rename, chmod, readdir, truncate calls x errno EIO (quick) / EIO, EACCES, ENOSPC (thorough). A fired fault followed by success is a violation unless the whole work tree is byte-identical to the fault-free run; a fault that never fires is inconclusive.",
     "Trusted: shim/fsshim.c. The scripted callbacks' own file operations are excluded from injection (vp_shim_pause). stat-family calls and ENOENT are never injected.")
 
+CHECKS["C15"] = ("fault_enumeration",
+    "runtime monitoring with crash injection: the real cargo-libcnb executable (built from /repo) packages generated Cargo workspaces; exit status, stdout and the package tree are judged against a written-out specification and against the tree of a clean run; interrupted runs are produced by killing the process at its k-th mutating libc call beneath the package directory (LD_PRELOAD)",
+    "Generated workspaces: 1-4 dependency-free libcnb.rs buildpack crates with 0-2 additional binary targets (unique names, or one name shared by several crates), 0-2 composites whose package.toml mixes libcnb:/path/docker/urn dependencies forming a DAG (also on other composites), buildpacks nested beneath a composite's directory, a foreign non-libcnb buildpack, an ignore file. Invocations: workspace root, each buildpack directory, directories that are no buildpack (with and without buildpacks below), dev/release, default/relative/absolute --package-dir. Checked per run: exit status, stdout = exactly the selected buildpacks' directories, each output dir holds exactly buildpack.toml (byte-identical), bin/build (byte-identical to the cargo artifact), bin/detect -> build, .libcnb-cargo/additional-bin/<target>, package.toml (normalised per the C14 oracle) and nothing else. Histories: clean; 9 kinds of stale/foreign content planted in an output dir; every (quick: up to 24 per workspace) crash point followed by a normal re-run, whose tree must equal the clean one.",
+    "Trusted: the tree specification in tools/c15.py, shim/fsshim.c. Only --target x86_64-unknown-linux-gnu can be built here; runs as root (undeletable stale content not explored).")
+
 PENDING = {}
 
 
